@@ -230,8 +230,6 @@ class Interpreter(BaseInterpreter[TContext, TEvent]):
 
         logger.info("🏁 Starting interpreter '%s'...", self.id)
         self.status = "running"
-        # 🌀 Launch the main event loop as a background task.
-        self._event_loop_task = asyncio.create_task(self._run_event_loop())
 
         try:
             # 🔔 Notify plugins that the interpreter is starting.
@@ -253,6 +251,15 @@ class Interpreter(BaseInterpreter[TContext, TEvent]):
             # unrelated event happened to nudge it. `start()` must return a
             # settled configuration in BOTH engines.
             await self._settle_transient_transitions()
+
+            # 🌀 Launch the main event loop only now that the initial
+            #    configuration has settled. Started earlier, the loop ran
+            #    concurrently with the entry above whenever it suspended (an
+            #    `await` in an action, or cancelling a service task on exit):
+            #    an event raised by an entry action was then processed against
+            #    a half-entered configuration, interleaved with the initial
+            #    macrostep. Events sent meanwhile simply wait in the queue.
+            self._event_loop_task = asyncio.create_task(self._run_event_loop())
 
             logger.info(
                 "✅ Interpreter '%s' started successfully. Current states: %s",
